@@ -37,12 +37,16 @@ def run(c):
     cnt = 300 if c.quick else 10000
     tr = os.path.join(vf.WORK, "lex", "c10-trace.ndjson")
     vf.gv(["record-relayout", c.seed, cnt, tr])
+    # random Unicode texts, full comparison (line-break terminators included)
+    tr2 = os.path.join(vf.WORK, "lex", "c10-texts.ndjson")
+    vf.gv(["record-lex", c.seed + 1, 150 if c.quick else 4000, 300, tr2, "full"])
+    open(tr, "a").write(open(tr2).read())
     tv = vf.validate_trace("Trace_Lexer", tr, "c10", chunk_events=40, par=8)
     c.add_trace(tv, "Trace_Lexer (re-layouts)")
     c.cov["relayouts_discarded_by_spec"] = tv.get("discarded", 0)
     for rj in tv["rejects"]:
         ev = rj["event"] or {}
-        tb = "".join(ch["id"] if len(ch["id"]) == 1 else "<%s>" % ch["id"] for ch in ev.get("tb", []))
+        tb = "".join(ch["id"] if len(ch["id"]) == 1 else "<%s>" % ch["id"] for ch in ev.get("tb", ev.get("text", [])))
         c.violate("re-layout changes the outcome: " + rj["what"][:200], {"kind": "trace-relayout", "class": "comment" if "#" in tb else "layout", "what": rj["what"][:300], "layout_b": tb[:3000]})
     lines = open(tr).read().splitlines()
     ev = json.loads(lines[0])
